@@ -14,12 +14,13 @@ import (
 )
 
 type FuncResult struct {
-	Key    string
-	Obls   []*Obligation
-	Paths  int
-	Notes  []string
-	Err    string
-	Assumed bool
+	Key      string
+	Obls     []*Obligation
+	Paths    int
+	Notes    []string
+	Err      string
+	Assumed  bool
+	entryEnv *Env
 }
 
 func (e *Engine) verifyFunc(key string) (res *FuncResult) {
@@ -72,6 +73,7 @@ func (e *Engine) verifyFunc(key string) (res *FuncResult) {
 	env := x.contractEnv(st, c, sig, all)
 	env.old, env.oldTop = heapSnap{}, st.top0
 	x.params = env.vars
+	res.entryEnv = env
 	// type invariants of parameters, then requires
 	x.assumeTypeInvs(st, env)
 	for _, r := range c.Requires {
